@@ -137,13 +137,13 @@ func (h *Handler) Handle(ctx context.Context, request admission.Request) admissi
 		if err := yaml.Unmarshal(request.Options.Raw, opts); err != nil {
 			return admission.Errored(http.StatusBadRequest, err)
 		}
-		return h.validateNoUsages(ctx, u, opts)
+		return h.validateNoUsages(ctx, u, opts, request.DryRun != nil && *request.DryRun)
 	default:
 		return admission.Errored(http.StatusBadRequest, errors.Errorf(errFmtUnexpectedOp, request.Operation))
 	}
 }
 
-func (h *Handler) validateNoUsages(ctx context.Context, u *unstructured.Unstructured, opts *metav1.DeleteOptions) admission.Response {
+func (h *Handler) validateNoUsages(ctx context.Context, u *unstructured.Unstructured, opts *metav1.DeleteOptions, dryRun bool) admission.Response {
 	h.log.Debug("Validating no usages", "apiVersion", u.GetAPIVersion(), "kind", u.GetKind(), "name", u.GetName(), "policy", opts.PropagationPolicy)
 	usageList := &v1beta1.UsageList{}
 	if err := h.client.List(ctx, usageList, client.MatchingFields{InUseIndexKey: IndexValueForObject(u)}); err != nil {
@@ -161,7 +161,8 @@ func (h *Handler) validateNoUsages(ctx context.Context, u *unstructured.Unstruct
 		}
 		// If the resource is being deleted, we want to record the first deletion attempt
 		// so that we can track whether a deletion was attempted at least once.
-		if u.GetAnnotations() == nil || u.GetAnnotations()[AnnotationKeyDeletionAttempt] != string(policy) {
+		// A dry run request must have no side effects, so it is not recorded.
+		if !dryRun && (u.GetAnnotations() == nil || u.GetAnnotations()[AnnotationKeyDeletionAttempt] != string(policy)) {
 			orig := u.DeepCopy()
 			xpmeta.AddAnnotations(u, map[string]string{AnnotationKeyDeletionAttempt: string(policy)})
 			// Patch the resource to add the deletion attempt annotation
